@@ -60,4 +60,35 @@ func (Keeper).CalculateBaseFee
     unreachable return: return nil#2
     // `if !parentGasTargetBig.IsUint64() { return nil }`: the gas limit is at most 2^64-1 and the multiplier at least 1
     unreachable return: return nil#3
+
+// truncation commutes with the maximum against an integral value
+lemma TruncMax(a int, u int)
+    requires u >= 0
+    ensures dec_trunc(imax(a, dec_of(u))) == imax(dec_trunc(a), u)
+// a multiplier in [0,1] does not increase a non-negative amount
+lemma MulAtMostOne(w int, m int)
+    requires w >= 0 && m >= 0 && m <= dec_one()
+    ensures dec_mul(dec_of(w), m) >= 0 && dec_mul(dec_of(w), m) <= dec_of(w)
+
+// C17: the gas figure recorded for the next base fee is max(gasWanted x minGasMultiplier, gasUsed)
+func (*Keeper).EndBlock
+    let meter = ctx_blockgasmeter(ctx)
+    let w = fm_transient_gas
+    let u = gas_consumed_to_limit(ctx_blockgasmeter(ctx))
+    let m = fm_params.MinGasMultiplier
+    modifies fm_block_gas
+    requires valid: fm_params.MinGasMultiplier >= 0 && fm_params.MinGasMultiplier <= dec_one()
+    ensures nometer: meter == nil ==> fm_block_gas == old(fm_block_gas)
+    ensures overflow: meter != nil && (w > 9223372036854775807 || u > 9223372036854775807) ==> fm_block_gas == old(fm_block_gas)
+    ensures clamp: meter != nil && w <= 9223372036854775807 && u <= 9223372036854775807
+            ==> fm_block_gas == imax(dec_trunc(dec_mul(dec_of(w), m)), u)
+    use entry TruncMax(dec_mul(dec_of(fm_transient_gas), fm_params.MinGasMultiplier), gas_consumed_to_limit(ctx_blockgasmeter(ctx)))
+    use entry MulAtMostOne(fm_transient_gas, fm_params.MinGasMultiplier)
+
+// C17: BeginBlock stores exactly the computed base fee (and nothing when it is nil)
+func (*Keeper).BeginBlock
+    modifies fm_params
+    requires valid: fm_params.BaseFeeChangeDenominator != 0 && fm_params.ElasticityMultiplier != 0 && fm_params.BaseFee >= 0
+             && fm_params.MinGasPrice >= 0
+    call SetBaseFee requires computed: baseFee != nil
 @*/
